@@ -1,7 +1,32 @@
-import Nv.Model.C03
+import Nv.Props.C03
 import Nv.Gen.C03
-/-! C03 — obligations on the definitions regenerated from /repo's current source. -/
+/-!
+C03 — obligations on the definitions regenerated from /repo's current source, and the property theorems
+instantiated at the regenerated configuration (what the code passes to `iterate` today, the comparison
+`iterWalk` uses today, the wrapper's degree today).
+-/
 namespace Nv.C03
+
 theorem tie_facts : Nv.Gen.C03.facts = Facts.expected := by decide
 theorem tie_cfg_proved : Proved Nv.Gen.C03.cfg := by decide
+
+/-- `AscendGreaterOrEqual`, `AscendGreater`, `DescendLessOrEqual`, `DescendLess` as written in the source today -/
+theorem tie_scan_named (t : Tree) (h : t.ok = true) (p : Int) (cont : Item → Bool) :
+    t.scan Nv.Gen.C03.cfg.ascGe (some p) none cont = visited cont (specScan t.inorder .asc (some p) true) ∧
+    t.scan Nv.Gen.C03.cfg.ascGt (some p) none cont = visited cont (specScan t.inorder .asc (some p) false) ∧
+    t.scan Nv.Gen.C03.cfg.descLe (some p) none cont = visited cont (specScan t.inorder .desc (some p) true) ∧
+    t.scan Nv.Gen.C03.cfg.descLt (some p) none cont = visited cont (specScan t.inorder .desc (some p) false) :=
+  bt_scan_named _ tie_cfg_proved t h p cont
+
+/-- the wrapper's `AscendGte`, `AscendGt`, `DescendLte`, `DescendLt` as written in the source today -/
+theorem tie_iterwalk (t : Tree) (h : t.ok = true) (k : Int) (f : Item → Bool) (n : Nat) :
+    wAscendGte Nv.Gen.C03.cfg t k f n = .items (((specScan t.inorder .asc (some k) true).filter f).take n) ∧
+    wAscendGt Nv.Gen.C03.cfg t k f n = .items (((specScan t.inorder .asc (some k) false).filter f).take n) ∧
+    wDescendLte Nv.Gen.C03.cfg t k f n = .items (((specScan t.inorder .desc (some k) true).filter f).take n) ∧
+    wDescendLt Nv.Gen.C03.cfg t k f n = .items (((specScan t.inorder .desc (some k) false).filter f).take n) :=
+  bt_iterwalk_spec _ tie_cfg_proved t h k f n
+
+/-- the wrapper's tree starts valid with the degree found in `NewBTree` -/
+theorem tie_wrapper_new : (wNew Nv.Gen.C03.cfg).ok = true := bt_wrapper_new _ tie_cfg_proved
+
 end Nv.C03
